@@ -79,6 +79,27 @@ def first_diff(a, b):
     return "length %d vs %d lines" % (len(la), len(lb))
 
 
+def drop_declonly_children(lines):
+    """abidw emits a declaration-only class together with the member functions it saw defined; model of the reader
+    dropping them: the element becomes an empty one."""
+    import re
+    out, k = [], 0
+    while k < len(lines):
+        l = lines[k]
+        m = re.match(rb"^(\s*)<(class-decl|union-decl) [^>]*is-declaration-only='yes'[^>]*[^/]>$", l)
+        if m:
+            end = m.group(1) + b"</" + m.group(2) + b">"
+            j = k + 1
+            while j < len(lines) and lines[j] != end:
+                j += 1
+            out.append(l[:-1] + b"/>")
+            k = j + 1
+            continue
+        out.append(l)
+        k += 1
+    return out
+
+
 def first_diff_feature(a, b):
     """Classify the difference between the abidw document `a` and abilint's output `b` (stable key material).
     Layers are peeled off in order, so that a document exhibiting a known class and something else gets the key
@@ -113,6 +134,11 @@ def first_diff_feature(a, b):
     na2, nb2 = drop_empty_instr(na), drop_empty_instr(nb)
     if na2 == nb2:
         return "empty-abi-instr-dropped"
+    na3 = drop_declonly_children(na2)
+    if na3 == nb2:
+        return "declaration-only-class-lost-its-member-functions"
+    if collections.Counter(na3) == collections.Counter(nb2) and na3 != na2:
+        return "declaration-only-class-lost-its-member-functions+reordered"
     ca, cb = collections.Counter(na2), collections.Counter(nb2)
     if ca == cb:
         import difflib
